@@ -24,25 +24,243 @@ def wrap(*duts, extra=None):
     return m
 
 
-PRE = [0]      # number of throw-away elaborations before the one that is simulated (set per case)
+import threading
+
+_tls = threading.local()       # .pre: number of throw-away elaborations before the simulated one (set per case)
 
 
 def set_pre(spec):
     """Cases carry 'pre' in {0,1,2}: the design under test is elaborated that many times *before* the
     elaboration the simulator uses, so behaviour is also checked on a second/third elaboration of
     the same instances (simulate-then-synthesise in the other order)."""
-    PRE[0] = int(spec.get("pre", 0)) if isinstance(spec, dict) else 0
-    return PRE[0]
+    _tls.pre = int(spec.get("pre", 0)) if isinstance(spec, dict) else 0
+    _tls.prelude = spec.get("prelude") if isinstance(spec, dict) else None
+    return _tls.pre
 
 
 def simulate(top, tb):
-    """Run the async testbench ``tb(ctx)`` against ``top`` with a clock on ``sync``."""
-    for _ in range(PRE[0]):
+    """Run the async testbench ``tb(ctx)`` against ``top`` with a clock on ``sync``. Inside a
+    companion group (see ``run_group``) the request is handed to the coordinator instead, which
+    simulates the designs of all cases of the group together."""
+    job = getattr(_tls, "job", None)
+    prelude = getattr(_tls, "prelude", None)
+    if job is not None:
+        # elaborate once on the case's own account first: a refusal at elaboration belongs to the
+        # case that asked for it, and is raised where its check expects it
+        Fragment.get(top, None)
+        return job.group.request(job, top, tb, getattr(_tls, "pre", 0), prelude)
+    if prelude:
+        return _simulate_together([_Solo(top, tb, getattr(_tls, "pre", 0), prelude)])
+    for _ in range(getattr(_tls, "pre", 0)):
         Fragment.get(top, None)
     sim = Simulator(top)
     sim.add_clock(1e-6)
     sim.add_testbench(tb)
     sim.run()
+
+
+class _Solo:
+    index, delay = 0, 0
+
+    def __init__(self, *req):
+        self.req = req
+
+
+# ------------------------------------------------------------------------------------------
+# prelude: before the testbench proper starts, the inputs of the design (every signal it uses but
+# does not drive) carry pseudo-random garbage for some cycles, which is held while the clock domain
+# is reset for one cycle. A synchronous reset returns a design to its power-on state (memories
+# excepted: checks over memories do not ask for a prelude), so the case must then behave exactly
+# as it does from power-on. With 'flush' the inputs return to their initial values that many cycles
+# before the reset (for deliberately reset-less synchroniser chains).
+
+def undriven_inputs(top):
+    from amaranth.hdl._ast import SignalSet
+    from amaranth.hdl._mem import MemoryInstance
+    frag = Fragment.get(top, None)
+    used, driven = SignalSet(), SignalSet()
+    todo = [frag]
+    while todo:
+        f = todo.pop()
+        for _domain, stmts in f.statements.items():
+            for stmt in stmts:
+                driven.update(stmt._lhs_signals())
+                used.update(stmt._rhs_signals())
+        if isinstance(f, MemoryInstance):
+            for rp in f._read_ports:
+                driven.update(rp._data._rhs_signals())
+                used.update(rp._addr._rhs_signals()); used.update(rp._en._rhs_signals())
+            for wp in f._write_ports:
+                for v in (wp._addr, wp._data, wp._en):
+                    used.update(v._rhs_signals())
+        for sub, _name, _loc in f.subfragments:
+            todo.append(sub)
+    return sorted((s for s in used if s not in driven), key=lambda s: (s.name, len(s)))
+
+
+def _garbage(seed, k, t, sig):
+    from .csrmodel import hval
+    from amaranth import Const
+    return Const(hval(seed, f"prelude{k}", t, len(sig)), sig.shape()).value
+
+
+# ------------------------------------------------------------------------------------------
+# companion groups: several independent cases (each with its own oracle) share ONE design.
+# Components of a library must not influence each other through anything but their ports, so on
+# a correct tree every case of a group behaves exactly as it does alone. Each case runs in its own
+# thread, but strictly one thread at a time (hand-over by events): the threads are coroutines, the
+# order of every construction, elaboration and simulation step is a pure function of the spec.
+
+threading.stack_size(256 * 1024 * 1024)
+
+
+class _Abort(BaseException):
+    """Unwinds a case whose group was aborted by a failure elsewhere."""
+
+
+class _Job:
+    def __init__(self, group, index, fn, delay):
+        self.group, self.index, self.fn, self.delay = group, index, fn, delay
+        self.wake = threading.Event()
+        self.parked = threading.Event()     # set when the thread waits in simulate() or has ended
+        self.done = False
+        self.exc = None
+        self.req = None
+        self.abort = False
+
+    def run(self):
+        _tls.job = self
+        try:
+            self.wake.wait(); self.wake.clear()
+            if not self.abort:
+                self.fn()
+        except _Abort:
+            pass
+        except BaseException as e:
+            self.exc = e
+        finally:
+            _tls.job = None
+            self.done = True
+            self.parked.set()
+
+
+class _Group:
+    def __init__(self):
+        self.jobs = []
+
+    def request(self, job, top, tb, pre, prelude=None):
+        job.req = (top, tb, pre, prelude)
+        job.parked.set()
+        job.wake.wait(); job.wake.clear()
+        if job.abort:
+            raise _Abort()
+
+    def resume(self, job):
+        job.parked.clear()
+        job.wake.set()
+        job.parked.wait()
+
+
+def run_group(fns, delays, order):
+    """``fns``: one callable per case (first = the case proper, others = companions). Each runs up to
+    its first ``simulate`` call (so all components are *constructed* before any is elaborated, in the
+    order given), then the requests are simulated together in one top-level design, companions'
+    testbenches starting ``delays[k]`` clock cycles late; ``order`` permutes the submodule order.
+    Repeats until every case has finished. Raises the first failure (tagged with ``.job_index``)."""
+    g = _Group()
+    jobs = [_Job(g, k, fn, delays[k]) for k, fn in enumerate(fns)]
+    threads = [threading.Thread(target=j.run, daemon=True) for j in jobs]
+    for t in threads:
+        t.start()
+    failure = None
+    try:
+        for j in jobs:
+            g.resume(j)
+        while True:
+            for j in jobs:
+                if j.done and j.exc is not None and failure is None:
+                    failure = j.exc
+                    failure.job_index = j.index
+            if failure is not None:
+                break
+            reqs = [j for j in jobs if not j.done and j.req is not None]
+            if not reqs:
+                break
+            try:
+                _simulate_together(sorted(reqs, key=lambda j: order.index(j.index) if j.index in order else j.index))
+            except BaseException as e:
+                failure = e
+                break
+            for j in reqs:
+                j.req = None
+            for j in reqs:
+                g.resume(j)
+    finally:
+        for j in jobs:
+            if not j.done:
+                j.abort = True
+                j.wake.set()
+        for t in threads:
+            t.join()
+    if failure is not None:
+        raise failure
+
+
+def _simulate_together(jobs):
+    from amaranth import ClockDomain
+    top = Module()
+    cd = None
+    if any(j.req[3] for j in jobs):
+        top.domains.sync = cd = ClockDomain()
+    for j in jobs:
+        top.submodules[f"case{j.index}"] = j.req[0]
+    for _ in range(max(j.req[2] for j in jobs)):
+        Fragment.get(top, None)
+    plans = {}
+    for j in jobs:
+        if j.req[3]:
+            p = j.req[3]
+            plans[j.index] = (undriven_inputs(j.req[0]), int(p["cycles"]), int(p.get("flush", 0)), p["dseed"])
+    # the reset edge is the tick number ``n``; everything proper starts after tick n+1
+    n = max((c + f for _, c, f, _ in plans.values()), default=0)
+    sim = Simulator(top)
+    sim.add_clock(1e-6)
+    if plans:
+        async def prelude(ctx):
+            for t in range(n):
+                for k, (sigs, c, f, seed) in plans.items():
+                    if n - f - c <= t < n - f:
+                        for i, sig in enumerate(sigs):
+                            ctx.set(sig, _garbage(seed, i, t, sig))
+                    elif t == n - f:
+                        for sig in sigs:
+                            ctx.set(sig, sig.init)
+                await ctx.tick()
+            ctx.set(cd.rst, 1)
+            await ctx.tick()
+            ctx.set(cd.rst, 0)
+        sim.add_testbench(prelude)
+    for j in jobs:
+        sim.add_testbench(_tagged(j, (n + 1) if plans else 0, plans.get(j.index, ((), 0, 0, 0))[0]))
+    sim.run()
+
+
+def _tagged(job, start, inputs):
+    tb, delay = job.req[1], job.delay
+    async def run(ctx):
+        for _ in range(start):
+            await ctx.tick()
+        for sig in inputs:
+            ctx.set(sig, sig.init)
+        for _ in range(delay):
+            await ctx.tick()
+        try:
+            await tb(ctx)
+        except BaseException as e:
+            if not hasattr(e, "job_index"):
+                e.job_index = job.index
+            raise
+    return run
 
 
 def raw(sig):
@@ -52,3 +270,55 @@ def raw(sig):
 
 def mask(w):
     return (1 << w) - 1
+
+
+def reseeded(spec, salt=1000003):
+    """Deep copy of a spec with every 'dseed' (the seed of all data values) changed: same layout,
+    same schedule shape, different data."""
+    if isinstance(spec, dict):
+        return {k: ((v + salt) if k == "dseed" and isinstance(v, int) else reseeded(v, salt)) for k, v in spec.items()}
+    if isinstance(spec, list):
+        return [reseeded(v, salt) for v in spec]
+    return spec
+
+
+def run_case(mod, spec, stats, load_prop=None):
+    """Entry point used by the runner: a plain case is ``mod.check(spec, stats)``; a case carrying
+    'companions' runs as a group. A companion is {"kind": "twin"|"other"|"cross", "delay": d,
+    "first": bool, "reseed": bool, ["spec": ...], ["prop": id]}:
+      twin  - the same spec again (optionally with other data values): two identically configured
+              instances in one design
+      other - an independent spec of the same property
+      cross - a spec of another property (a different library component next to this one)."""
+    comps = spec.get("companions") if isinstance(spec, dict) else None
+    if not comps:
+        return mod.check(spec, stats)
+    from .common import Stats
+    base = {k: v for k, v in spec.items() if k != "companions"}
+    fns, delays, order = [lambda: mod.check(base, stats)], [0], [0]
+    for c in comps:
+        if c["kind"] == "twin":
+            cs, cm = (reseeded(base) if c.get("reseed") else base), mod
+        elif c["kind"] == "other":
+            cs, cm = c["spec"], mod
+        else:
+            cs, cm = c["spec"], load_prop(c["prop"])
+        k = len(fns)
+        side = Stats(); side.begin()     # companions do not count towards this property's classes
+        fns.append((lambda cm=cm, cs=cs, side=side: cm.check(cs, side)))
+        delays.append(int(c.get("delay", 0)))
+        if c.get("first"):
+            order.insert(0, k)
+        else:
+            order.append(k)
+        stats.label("companion:" + c["kind"])
+    try:
+        run_group(fns, delays, order)
+    except BaseException as e:
+        # a failure of a companion is a failure of that companion's own oracle; keep the buckets
+        # apart from those of the case proper
+        from .common import Violation
+        k = getattr(e, "job_index", 0)
+        if k and isinstance(e, Violation):
+            raise Violation("companion/" + e.bucket, f"[companion {k}: {comps[k-1]['kind']}] {e.detail}") from e
+        raise
